@@ -198,8 +198,8 @@ structure H where
   next_attacker_id : Int := 0
   /-- allocation counters: every reference `< nfresh` (`< afresh`) has been handed out by a constructor call
   (`allocN` / `allocA`); Python has no counterpart (a new object is simply distinct from all existing ones) -/
-  nfresh : NRef := 0
-  afresh : ARef := 0
+  nfresh : Nat := 0
+  afresh : Nat := 0
 
 def H.setN (s : H) (r : NRef) (o : PyNode) : H := { s with n := fun x => if x = r then o else s.n x }
 def H.setA (s : H) (r : ARef) (o : PyAttacker) : H := { s with a := fun x => if x = r then o else s.a x }
